@@ -270,7 +270,14 @@ def _arm_file(draw):
         parts.append(draw(st.text(alphabet=others, max_size=2)))
         stext_raw = ''.join(parts)
         stext = None
-    return dict(arm='file', num_pad=draw(st.sampled_from([None, None, 'blank_left', 'blank_right'])), stext_raw=stext_raw, delim=delim, version=version, extra=extra, stext=stext, analysis=analysis,
+    if draw(st.sampled_from([True, False, False, False])):
+        # vendor keywords some readers interpret: what the file says is what .text holds, nothing more
+        if draw(st.booleans()):
+            extra = extra + [['CREATOR', 'CellQuest Pro 5.2'], ['BD$WORD13', '450'], ['BD$WORD14', '600']]
+        else:
+            extra = extra + [['CREATOR', 'FlowJoCollectorsEdition 7.5'], ['CytekP01G', '2.5'], ['CytekP02G', '1']]
+    where = draw(st.sampled_from(['before_data', 'before_data', 'behind_data', 'before_text']))
+    return dict(arm='file', stext_where=where, num_pad=draw(st.sampled_from([None, None, 'blank_left', 'blank_right'])), stext_raw=stext_raw, delim=delim, version=version, extra=extra, stext=stext, analysis=analysis,
                 analysis_in=draw(st.sampled_from(['header', 'text'])) if version != 'FCS2.0' else 'header',
                 stext_leading=draw(st.booleans()), analysis_leading=draw(st.booleans()),
                 blank_analysis=draw(st.booleans()),
@@ -330,7 +337,8 @@ def check(case, obs):
                     stext=case['stext'], analysis=case['analysis'], analysis_in=case['analysis_in'],
                     stext_leading=case['stext_leading'], analysis_leading=case['analysis_leading'],
                     blank_analysis=case['blank_analysis'], pad=case['pad'], pad_seed=case['pad_seed'],
-                    trail=case['trail'], num_pad=case.get('num_pad'))
+                    trail=case['trail'], num_pad=case.get('num_pad'),
+                    stext_after=case.get('stext_where') == 'behind_data', stext_first=case.get('stext_where') == 'before_text')
         path = os.path.join(workdir(), 'c14.fcs')
         if case.get('stext_raw') is not None:
             # a supplemental segment given verbatim: the file is read iff the reference reads the segment, and then
